@@ -37,7 +37,14 @@ ConvBases == DOMAIN AsymBase
 KeyConvCells ==
   { [op |-> "ToolKeyConv", key |-> AsymKey(b, p, NONE, NONE)] : b \in ConvBases, p \in {0, 1} }
   \cup { [op |-> "ToolKeyConv", key |-> OctKey(n, v, NONE, NONE)] : n \in {32, 33, 47, 48, 64, 100, 512}, v \in {"a", "b"} }
-Cells == VerifyCells \cup RoundTripCells \cup KeyConvCells
+\* several files in one invocation, every order of four key types (and a repeated type)
+MK == << OctKey(48, "a", NONE, NONE), AsymKey("rsa2048a", 1, NONE, NONE), AsymKey("p256zx", 0, NONE, NONE), AsymKey("ed25519a", 1, NONE, NONE) >>
+Perms4 == { p \in [1..4 -> 1..4] : \A i, j \in 1..4 : i # j => p[i] # p[j] }
+MultiCells ==
+  { [op |-> "ToolKeyConvMulti", keys |-> [i \in 1..4 |-> MK[p[i]]]] : p \in Perms4 }
+  \cup { [op |-> "ToolKeyConvMulti", keys |-> <<MK[a], MK[b]>>] : a \in 1..4, b \in 1..4 }
+  \cup { [op |-> "ToolKeyConvMulti", keys |-> <<OctKey(32, "a", NONE, NONE), OctKey(64, "b", NONE, NONE), AsymKey("p384a", 1, NONE, NONE), OctKey(100, "a", NONE, NONE)>>] }
+Cells == VerifyCells \cup RoundTripCells \cup KeyConvCells \cup MultiCells
 
 Emit == (pos = 1 /\ status = Running /\ vtoks = ListOf(0, 0, "gb")) =>
           \A c \in Cells : PrintT(<<"SCRIPT", ToJson(<<c>>)>>)
